@@ -154,9 +154,13 @@ fn sequential(ctx: &mut Ctx, k: u64) {
                 let _ = e.compact_all();
             }
             _ => {
-                hist.push("restart".into());
+                // half of the restarts are plain drops of the engine (no save: data may live in the WAL only)
+                let save = r.chance(1, 2);
+                hist.push(if save { "restart".into() } else { "restart (no save)".to_string() });
                 restarts += 1;
-                let _ = e.save_all();
+                if save {
+                    let _ = e.save_all();
+                }
                 drop(e);
                 match open(&scratch.path, &o) {
                     Ok(x) => e = x,
@@ -191,13 +195,13 @@ fn sequential(ctx: &mut Ctx, k: u64) {
                     let collide = used.iter().any(|(k1, r1)| used.iter().any(|(k2, r2)| (k1, r1) != (k2, r2) && sanitize(&format!("{k1}:{r1}")) == sanitize(&format!("{k2}:{r2}"))));
                     class = if colon {
                         "colon-in-kg-or-relation-name"
-                    } else if collide && last == "restart" {
+                    } else if collide && last.starts_with("restart") {
                         "shard-filename-collision:after-restart"
                     } else if collide {
                         "shard-filename-collision:live"
                     } else if ghost && last.starts_with("create") {
                         "dropped-data-reappears-in-recreated-kg"
-                    } else if ghost && last == "restart" {
+                    } else if ghost && last.starts_with("restart") {
                         "dropped-data-reappears-after-restart"
                     } else if !touched {
                         "operation-changed-another-kg"
